@@ -107,7 +107,7 @@ def render(m, rnd):
         L += ["[appdefaults]", kv("pam", "{"), kv("  debug", "false"), ws() + "}"] if rnd.random() < 0.5 else ["[logging]", kv("default", "FILE:/var/log/krb5.log")]
     for sec in order:
         if sec == "lib":
-            L.append(ws() + "[libdefaults]" + rnd.choice(["", " "]))
+            L.append("[libdefaults]" + rnd.choice(["", " "]))        # section headers start in the first column (MIT does not recognise an indented one)
             for e in m["lib"]:
                 noise(L)
                 if e["kind"] == "bool":
@@ -124,7 +124,7 @@ def render(m, rnd):
             if m["structure"] == "lineWithoutEq-lib":
                 L.append(ws() + "this line has no equals sign")
         elif sec == "realms":
-            L.append(ws() + "[realms]")
+            L.append("[realms]" + rnd.choice(["", " ", "\t"]))
             for ri, r in enumerate(m["realms"]):
                 noise(L)
                 if m["structure"] == "oneLineBlock" and ri == 0:
@@ -158,7 +158,7 @@ def render(m, rnd):
                 if m["structure"] == "unbalancedClose" and ri == 0:
                     L.append(ws() + "}")
         else:
-            L.append(ws() + "[domain_realm]")
+            L.append("[domain_realm]" + rnd.choice(["", " "]))
             for d in m["domains"]:
                 noise(L)
                 L.append(kv(d["dom"], d["realm"]))
@@ -197,6 +197,12 @@ def main(tier):
             confs.append({"model": m, "text": render(m, rnd), "realmnames": [r["name"] for r in m["realms"]]})
         vlib.write_ndjson(os.path.join(wd, "confs.ndjson"), confs)
         trace = os.path.join(wd, "trace.ndjson")
+        # ---- what the rendered configuration models mean, according to MIT's profile library reading the same text (validates Krb5Conf / the renderer)
+        import mitcross
+        mcf = mitcross.mit_conf_cross(wd, confs, 400 if not run.thorough else 4000)
+        run.extra["krb5conf_vs_mit_profile"] = {k: v for k, v in mcf.items() if k != "first"}
+        if mcf.get("disagreements"):
+            raise vlib.Inconclusive("the configuration models and MIT's reading of their text disagree on %d values: %s" % (mcf["disagreements"], mcf["first"]))
         # ---- the resolution rule against MIT Kerberos' krb5_get_host_realm on the same configurations (validates RealmResolve, not gokrb5)
         import mitcross
         mh = mitcross.mit_hostrealm_cross(wd, 150 if not run.thorough else 1500)
